@@ -676,3 +676,68 @@ def c07_ltc_mweb_flag(opts):
                 t.violation(what="LTC tx id of an MWEB-flagged tx is not the hash of the stripped serialisation", inputs=dict(desc, error=err), repro=None, finding_key="ltc-mweb-flag-parse")
     t.exhaustive = False
     return t.result()
+
+
+# ----------------------------------------------------------------------------------------------------------------
+# ids and serialisation must follow the object's current fields (no stale state across calls)
+# ----------------------------------------------------------------------------------------------------------------
+def _rtx_of(tx):
+    return RTx(tx.version, [(bytes(i.previous_hash), i.previous_index, bytes(i.script), i.sequence, tuple(bytes(w) for w in i.witness)) for i in tx.txs_in],
+               [(o.coin_value, bytes(o.script)) for o in tx.txs_out], tx.lock_time)
+
+
+@bounded("C07.ids_track_current_state", props=["C07"],
+         bound="seeded histories on one Tx object (BTC): ask hash()/id()/w_hash()/w_id()/as_bin(), then change lock time, version, an output "
+               "value, a script, a sequence, a witness (directly or through set_witness) or append an output, and ask again; quick 300 / "
+               "thorough 3000 histories of 2..5 steps")
+def c07_ids_history(opts):
+    rng = random.Random(opts["seed"] * 1000003 + 799)
+    net = network_for_netcode("BTC")
+    Tx = net.tx
+    t = Tally(rule="one case = one history.  After every step as_bin() is the reference serialisation of the current fields, hash()/id() "
+                   "the double SHA-256 of the witness-free form and w_hash()/w_id() that of the full form (reversed hex for the ids)")
+
+    def rb(n):
+        return bytes(rng.getrandbits(8) for _ in range(n))
+    for h in range(300 if opts["tier"] == "quick" else 3000):
+        ins = [Tx.TxIn(rb(32), rng.randrange(4), rb(rng.randrange(0, 5)), rng.getrandbits(32)) for _ in range(rng.randrange(1, 3))]
+        for i in ins:
+            if rng.random() < 0.5:
+                i.witness = [rb(rng.randrange(0, 4)) for _ in range(rng.randrange(1, 3))]
+        tx = Tx(rng.choice([1, 2]), ins, [Tx.TxOut(rng.getrandbits(40), rb(rng.randrange(0, 6))) for _ in range(rng.randrange(1, 3))], rng.getrandbits(32))
+        steps = []
+        ok = True
+        for step in range(rng.randrange(2, 6)):
+            r = _rtx_of(tx)
+            full, bare = r.ser(), r.without_witness().ser()
+            want = (full, sha256d(bare), sha256d(bare)[::-1].hex(), sha256d(full), sha256d(full)[::-1].hex())
+            try:
+                got = (tx.as_bin(), bytes(tx.hash()), tx.id(), bytes(tx.w_hash()), tx.w_id())
+            except Exception as ex:
+                got = repr(ex)
+            if got != want:
+                which = [n for n, g, w in zip(("as_bin", "hash", "id", "w_hash", "w_id"), got if isinstance(got, tuple) else [None] * 5, want) if g != w]
+                t.violation("serialisation / ids of a transaction do not follow its current fields: %s" % ", ".join(which),
+                            {"history": steps, "tx": r.describe(), "differs": which}, finding_key="tx-ids-stale-or-wrong")
+                ok = False
+                break
+            op = rng.choice(["lock_time", "version", "value", "script", "sequence", "witness", "set_witness", "append"])
+            if op == "lock_time":
+                tx.lock_time = rng.getrandbits(32)
+            elif op == "version":
+                tx.version = rng.choice([1, 2, 3])
+            elif op == "value":
+                tx.txs_out[rng.randrange(len(tx.txs_out))].coin_value = rng.getrandbits(40)
+            elif op == "script":
+                tx.txs_in[rng.randrange(len(tx.txs_in))].script = rb(rng.randrange(0, 6))
+            elif op == "sequence":
+                tx.txs_in[rng.randrange(len(tx.txs_in))].sequence = rng.getrandbits(32)
+            elif op == "witness":
+                tx.txs_in[rng.randrange(len(tx.txs_in))].witness = [rb(rng.randrange(0, 4)) for _ in range(rng.randrange(0, 3))]
+            elif op == "set_witness":
+                tx.set_witness(rng.randrange(len(tx.txs_in)), [rb(rng.randrange(0, 4)) for _ in range(rng.randrange(0, 3))])
+            else:
+                tx.txs_out.append(Tx.TxOut(rng.getrandbits(40), rb(rng.randrange(0, 6))))
+            steps.append(op)
+        t.case(("hist", h), nontrivial=ok and len(steps) >= 2, sample={"steps": steps})
+    return t.result()
